@@ -121,7 +121,9 @@ pub fn run(case: &Value) -> Value {
                         let bytes = tamper(&op, bytes);
                         let rep = read_report(s.as_deref(), &fmt, &bytes);
                         trace.push(json!({"op": "read", "out": rep.get("state").cloned().unwrap_or(rep["err"].clone())}));
-                        reads.push(rep);
+                        let path = format!("{dir}/read_{}", reads.len());
+                        let _ = std::fs::write(&path, &bytes);
+                        reads.push(json!({"path": path, "format": fmt, "settings": op.get("settings").cloned().unwrap_or(Value::Null), "report": rep}));
                     }
                     None => trace.push(json!({"op": "read", "out": "no-source"})),
                 }
@@ -155,5 +157,5 @@ pub fn run(case: &Value) -> Value {
         let r = produce(&op, &[]);
         json!({"first": sh, "again": sign_shape(s.as_deref(), op["format"].as_str().unwrap_or("image/jpeg"), &r)})
     });
-    json!({"r": "ok", "assets": out_assets, "reads": reads.len(), "resign": resign, "trace": trace})
+    json!({"r": "ok", "assets": out_assets, "reads": reads, "resign": resign, "trace": trace})
 }
